@@ -70,6 +70,27 @@ Theorem C14_law_crossing : forall cap maxP ts c pilot V T,
 Proof. exact c14_law_crossing. Qed.
 Print Assumptions C14_law_crossing.
 
+(* the same law as a differential equation.  l2_law_power cap maxP ts pilot V x
+     = min(l2_req_power maxP pilot V, l2_ramp_power cap maxP ts x)   [kW accepted at stored charge x];
+   right_derivative f x l = for every eps > 0 there is delta > 0 with
+     |(f (x+h) - f x)/h - l| < eps for all 0 < h < delta.
+   The average power over a vanishing first period tends to the law's power at the initial charge ... *)
+Theorem C14_law_initial : forall cap maxP ts c pilot V,
+  0 < cap -> 0 < maxP -> ts < 1 -> c <= cap -> 0 < V -> 0 <= pilot ->
+  forall eps, 0 < eps -> exists delta, 0 < delta /\ forall h, 0 < h < delta ->
+    Rabs ((l2_after cap maxP ts c pilot V h - c) / (h / 60) - l2_law_power cap maxP ts pilot V c) < eps.
+Proof. exact c14_law_initial. Qed.
+Print Assumptions C14_law_initial.
+
+(* ... and at every time T > 0 the stored charge grows [kWh per minute] at the law's power for the
+   charge reached at T: T |-> l2_after c T solves d charge/dt = l2_law_power(charge)/60 *)
+Theorem C14_law_ode : forall cap maxP ts c pilot V T,
+  0 < cap -> 0 < maxP -> ts < 1 -> c <= cap -> 0 < V -> 0 < T -> 0 <= pilot ->
+  right_derivative (fun t => l2_after cap maxP ts c pilot V t) T
+                   (l2_law_power cap maxP ts pilot V (l2_after cap maxP ts c pilot V T) / 60).
+Proof. exact c14_law_ode. Qed.
+Print Assumptions C14_law_ode.
+
 (* the result for a period is the flow of an autonomous law: charging for T1 + T2 equals
    charging for T1 and then for T2 (all T1, T2 > 0) *)
 Theorem C14_split : forall cap maxP ts c pilot V T1 T2,
